@@ -255,3 +255,263 @@ impl World {
 }
 
 use ::whirlpool::state::Tick;
+
+// ================================================================================================
+// C17: two-hop swap instruction versus its two single-swap instructions
+//   H xhop <ver 1|2> <amount> <thrMode> <ein> <d1> <d2> <lim1> <lim2> <swapPools 0|1> <feeIn: bps max fut> <feeOut: bps max fut>
+// pool one = the current state, pool two = the state saved by `H snap` (or the other way round).
+// ================================================================================================
+use crate::fixture::{add_token_side, k, trader_account, MintCfg};
+use crate::svm::Bank;
+
+pub struct XHopOut {
+    pub line: String,
+    pub viols: Vec<String>,
+    pub tags: Vec<&'static str>,
+}
+
+struct Route {
+    f1: Fx,
+    f2: Fx,
+    m_in: MintCfg,
+    m_mid: MintCfg,
+    m_out: MintCfg,
+}
+
+fn swap_ix(fx: &Fx, ver: u8, amount: u64, thr: u64, limit: u128, ein: bool, dir: bool) -> (Vec<Meta>, Vec<u8>) {
+    if ver == 2 {
+        (fx.swap_v2_metas(dir), ::whirlpool::instruction::SwapV2 { amount, other_amount_threshold: thr, sqrt_price_limit: limit, amount_specified_is_input: ein, a_to_b: dir, remaining_accounts_info: None }.data())
+    } else {
+        (fx.swap_v1_metas(dir), ::whirlpool::instruction::Swap { amount, other_amount_threshold: thr, sqrt_price_limit: limit, amount_specified_is_input: ein, a_to_b: dir }.data())
+    }
+}
+
+impl World {
+    pub fn x_hop(&self, t: &[&str]) -> XHopOut {
+        use anchor_lang::ToAccountMetas;
+        let mut viols = vec![];
+        let mut tags: Vec<&'static str> = vec![];
+        let snap = match &self.snap {
+            Some(s) => s,
+            None => return XHopOut { line: "err NoSnapshot".to_string(), viols, tags },
+        };
+        let ver: u8 = t[2].parse().unwrap();
+        let amount: u64 = t[3].parse().unwrap();
+        let thr_mode: u8 = t[4].parse().unwrap();
+        let (ein, d1, d2) = (t[5] == "1", t[6] == "1", t[7] == "1");
+        let (lim1, lim2): (u128, u128) = (t[8].parse().unwrap(), t[9].parse().unwrap());
+        let swap_pools = t[10] == "1";
+        let (fee_in, fee_out) = if ver == 2 { (parse_fee(t[11], t[12], t[13]), parse_fee(t[14], t[15], t[16])) } else { (None, None) };
+        let (w1, w2): (&World, &World) = if swap_pools { (snap, self) } else { (self, snap) };
+        let t22 = ver == 2;
+        let m_in = MintCfg { key: k(0x31, 1), token2022: t22 && t[11] != "65535", fee: fee_in, decimals: 6 };
+        let m_mid = MintCfg { key: k(0x33, 3), token2022: false, fee: None, decimals: 8 };
+        let m_out = MintCfg { key: k(0x35, 5), token2022: t22 && t[14] != "65535", fee: fee_out, decimals: 9 };
+        let funds = u64::MAX / 4;
+        // pool one trades in -> mid, pool two trades mid -> out
+        let (a1, b1) = if d1 { (m_in, m_mid) } else { (m_mid, m_in) };
+        let (a2, b2) = if d2 { (m_mid, m_out) } else { (m_out, m_mid) };
+        let mut now_w1 = crate::hist_oracle::clone_world(w1);
+        now_w1.now = self.now; // both pools live at the current time
+        let mut now_w2 = crate::hist_oracle::clone_world(w2);
+        now_w2.now = self.now;
+        if now_w1.now < now_w1.wp().reward_last_updated_timestamp || now_w2.now < now_w2.wp().reward_last_updated_timestamp {
+            return XHopOut { line: "err SnapshotFromTheFuture".to_string(), viols, tags };
+        }
+        let f1 = Fx::pool_only(&now_w1, &a1, &b1, 0, Bank::new(self.now as i64));
+        let mut f2 = Fx::pool_only(&now_w2, &a2, &b2, 1, f1.bank.clone());
+        add_token_side(&mut f2.bank, &[m_in, m_mid, m_out], funds);
+        let bank0 = f2.bank.clone();
+        let mut f1 = f1;
+        f1.bank = bank0.clone();
+        let r = Route { f1, f2, m_in, m_mid, m_out };
+        let bal = |b: &Bank, key: &anchor_lang::prelude::Pubkey| token_amount(&b.data(key));
+        let (t_in, t_mid, t_out) = (trader_account(&m_in.key), trader_account(&m_mid.key), trader_account(&m_out.key));
+
+        // ---- the two single swaps on copies (reference)
+        // exact-in: leg one with `amount`, leg two with leg one's output.
+        // exact-out: quote leg two for `amount` on a throw-away copy to learn its input; leg one exact-out for that; then leg two.
+        let run_single = |bank: &mut Bank, fx: &Fx, amt: u64, lim: u128, e: bool, d: bool| -> Result<(u64, u64), String> {
+            let mut fxx = fx.clone();
+            fxx.bank = bank.clone();
+            let (m, data) = swap_ix(&fxx, ver, amt, if e { 0 } else { u64::MAX }, lim, e, d);
+            let (tin, tout) = if d { (fxx.trader_a, fxx.trader_b) } else { (fxx.trader_b, fxx.trader_a) };
+            let (b_in, b_out) = (bal(bank, &tin), bal(bank, &tout));
+            let (res, out) = bank.execute(&m, &data);
+            match res {
+                Ok(()) => Ok((b_in - bal(bank, &tin), bal(bank, &tout) - b_out)),
+                Err(e) => Err(err_name(&e, &out.logs)),
+            }
+        };
+        let mut ref_bank = bank0.clone();
+        let singles: Result<(u64, u64, u64, u64), String> = (|| {
+            if ein {
+                let (in1, out1) = run_single(&mut ref_bank, &r.f1, amount, lim1, true, d1)?;
+                let (in2, out2) = run_single(&mut ref_bank, &r.f2, out1, lim2, true, d2)?;
+                Ok((in1, out1, in2, out2))
+            } else {
+                let mut quote = bank0.clone();
+                let (need_mid, _) = run_single(&mut quote, &r.f2, amount, lim2, false, d2)?;
+                let (in1, out1) = run_single(&mut ref_bank, &r.f1, need_mid, lim1, false, d1)?;
+                let (in2, out2) = run_single(&mut ref_bank, &r.f2, amount, lim2, false, d2)?;
+                Ok((in1, out1, in2, out2))
+            }
+        })();
+        // expected outcome of the two-hop
+        let matching = singles.as_ref().map(|(_, out1, in2, _)| out1 == in2).unwrap_or(false);
+        let thr: u64 = match (&singles, thr_mode) {
+            (Ok((_, _, _, out2)), 1) if ein => *out2,
+            (Ok((in1, _, _, _)), 1) => *in1,
+            (Ok((_, _, _, out2)), 2) if ein => out2.saturating_add(1),
+            (Ok((in1, _, _, _)), 2) => in1.saturating_sub(1),
+            _ => {
+                if ein {
+                    0
+                } else {
+                    u64::MAX
+                }
+            }
+        };
+        let thr_binds = match &singles {
+            Ok((in1, _, _, out2)) => (ein && *out2 < thr) || (!ein && *in1 > thr),
+            _ => false,
+        };
+
+        // ---- the two-hop instruction
+        let mut bank = bank0.clone();
+        let ta1 = r.f1.swap_arrays(d1);
+        let ta2 = r.f2.swap_arrays(d2);
+        let (metas, data): (Vec<Meta>, Vec<u8>) = if ver == 2 {
+            let acc = ::whirlpool::accounts::TwoHopSwapV2 {
+                whirlpool_one: r.f1.pool,
+                whirlpool_two: r.f2.pool,
+                token_mint_input: m_in.key,
+                token_mint_intermediate: m_mid.key,
+                token_mint_output: m_out.key,
+                token_program_input: m_in.program(),
+                token_program_intermediate: m_mid.program(),
+                token_program_output: m_out.program(),
+                token_owner_account_input: t_in,
+                token_vault_one_input: if d1 { r.f1.vault_a } else { r.f1.vault_b },
+                token_vault_one_intermediate: if d1 { r.f1.vault_b } else { r.f1.vault_a },
+                token_vault_two_intermediate: if d2 { r.f2.vault_a } else { r.f2.vault_b },
+                token_vault_two_output: if d2 { r.f2.vault_b } else { r.f2.vault_a },
+                token_owner_account_output: t_out,
+                token_authority: r.f1.trader,
+                tick_array_one_0: ta1[0],
+                tick_array_one_1: ta1[1],
+                tick_array_one_2: ta1[2],
+                tick_array_two_0: ta2[0],
+                tick_array_two_1: ta2[1],
+                tick_array_two_2: ta2[2],
+                oracle_one: r.f1.oracle,
+                oracle_two: r.f2.oracle,
+                memo_program: anchor_spl::memo::ID,
+            };
+            (
+                acc.to_account_metas(None).iter().map(Meta::from).collect(),
+                ::whirlpool::instruction::TwoHopSwapV2 { amount, other_amount_threshold: thr, amount_specified_is_input: ein, a_to_b_one: d1, a_to_b_two: d2, sqrt_price_limit_one: lim1, sqrt_price_limit_two: lim2, remaining_accounts_info: None }.data(),
+            )
+        } else {
+            let acc = ::whirlpool::accounts::TwoHopSwap {
+                token_program: anchor_spl::token::ID,
+                token_authority: r.f1.trader,
+                whirlpool_one: r.f1.pool,
+                whirlpool_two: r.f2.pool,
+                token_owner_account_one_a: r.f1.trader_a,
+                token_vault_one_a: r.f1.vault_a,
+                token_owner_account_one_b: r.f1.trader_b,
+                token_vault_one_b: r.f1.vault_b,
+                token_owner_account_two_a: r.f2.trader_a,
+                token_vault_two_a: r.f2.vault_a,
+                token_owner_account_two_b: r.f2.trader_b,
+                token_vault_two_b: r.f2.vault_b,
+                tick_array_one_0: ta1[0],
+                tick_array_one_1: ta1[1],
+                tick_array_one_2: ta1[2],
+                tick_array_two_0: ta2[0],
+                tick_array_two_1: ta2[1],
+                tick_array_two_2: ta2[2],
+                oracle_one: r.f1.oracle,
+                oracle_two: r.f2.oracle,
+            };
+            let o1 = !bank0.data(&r.f1.oracle).is_empty();
+            let o2 = !bank0.data(&r.f2.oracle).is_empty();
+            (
+                acc.to_account_metas(None)
+                    .iter()
+                    .map(Meta::from)
+                    .map(|mut m| {
+                        if (m.key == r.f1.oracle && o1) || (m.key == r.f2.oracle && o2) {
+                            m.writable = true;
+                        }
+                        m
+                    })
+                    .collect(),
+                ::whirlpool::instruction::TwoHopSwap { amount, other_amount_threshold: thr, amount_specified_is_input: ein, a_to_b_one: d1, a_to_b_two: d2, sqrt_price_limit_one: lim1, sqrt_price_limit_two: lim2 }.data(),
+            )
+        };
+        let (res, out) = bank.execute(&metas, &data);
+        let line = match &res {
+            Err(e) => {
+                let name = err_name(e, &out.logs);
+                match &singles {
+                    Ok(_) if matching && !thr_binds => viols.push(format!(
+                        "C17 the two-hop fails with {} although both legs succeed as single swaps with matching intermediate amounts ({:?}) and the threshold {} holds",
+                        name, singles, thr
+                    )),
+                    Ok(_) if !matching && name != "IntermediateTokenAmountMismatch" && !thr_binds => viols.push(format!("C17 the legs' intermediate amounts differ ({:?}) but the two-hop fails with {} instead of IntermediateTokenAmountMismatch", singles, name)),
+                    Ok(_) => tags.push(if thr_binds { "hop_threshold_rejected" } else { "hop_mismatch_rejected" }),
+                    Err(_) => tags.push("hop_leg_fails"),
+                }
+                if bank.accts != bank0.accts {
+                    viols.push("a failed two-hop instruction changed account state".to_string());
+                }
+                format!("err {}", name)
+            }
+            Ok(()) => {
+                let paid = bal(&bank0, &t_in) - bal(&bank, &t_in);
+                let got = bal(&bank, &t_out) - bal(&bank0, &t_out);
+                let mid_delta = bal(&bank, &t_mid) as i128 - bal(&bank0, &t_mid) as i128;
+                match &singles {
+                    Err(e) => viols.push(format!("C17 the two-hop succeeds but a leg fails as a single swap ({})", e)),
+                    Ok((in1, out1, in2, out2)) => {
+                        if !matching {
+                            viols.push(format!("C17 the two-hop succeeds although the legs' intermediate amounts differ: leg one pays out {}, leg two takes {}", out1, in2));
+                        }
+                        if thr_binds {
+                            viols.push(format!("C17/C03 the two-hop succeeds although the threshold {} is violated (in {}, out {})", thr, in1, out2));
+                        }
+                        if paid != *in1 || got != *out2 {
+                            viols.push(format!("C17 the trader paid {} and received {}; the two single swaps pay {} and receive {}", paid, got, in1, out2));
+                        }
+                        if mid_delta != 0 {
+                            viols.push(format!("C17 the intermediate token does not net to zero for the trader ({})", mid_delta));
+                        }
+                        // both pools, their tick arrays and oracles: exactly the state after the two single swaps
+                        for (key, a) in &bank.accts {
+                            if a.owner == ::whirlpool::ID && ref_bank.accts.get(key) != Some(a) {
+                                viols.push(format!("C17 account {} (owned by the program) after the two-hop differs from its state after the two single swaps", key));
+                                break;
+                            }
+                        }
+                        // vault balances: pool one's input vault and pool two's output vault as in the single swaps;
+                        // the intermediate moves vault to vault
+                        if matching {
+                            let v = |b: &Bank, k: &anchor_lang::prelude::Pubkey| bal(b, k);
+                            let (v1i, v1m) = if d1 { (r.f1.vault_a, r.f1.vault_b) } else { (r.f1.vault_b, r.f1.vault_a) };
+                            let (v2m, v2o) = if d2 { (r.f2.vault_a, r.f2.vault_b) } else { (r.f2.vault_b, r.f2.vault_a) };
+                            if v(&bank, &v1i) != v(&ref_bank, &v1i) || v(&bank, &v2o) != v(&ref_bank, &v2o) || v(&bank, &v1m) != v(&ref_bank, &v1m) || v(&bank, &v2m) != v(&ref_bank, &v2m) {
+                                viols.push("C17 vault balances after the two-hop differ from those after the two single swaps".to_string());
+                            }
+                        }
+                        tags.push("hop_ok");
+                    }
+                }
+                format!("ok {} {}", paid, got)
+            }
+        };
+        let _ = (&r.m_in, &r.m_mid, &r.m_out);
+        XHopOut { line, viols, tags }
+    }
+}
